@@ -34,6 +34,7 @@ import (
 //	//@   axiom [label] expr
 //	//@   lemma [label] by induction VAR from LO :: expr
 //	//@   inline CALLEE | noinline CALLEE
+//
 // ConstCheck is a pure data obligation on a declared constant: its value in the
 // source must equal the value the external specification gives.
 type ConstCheck struct {
